@@ -6,6 +6,7 @@ mod hashing;
 mod containers;
 mod generic;
 mod flow;
+mod band;
 
 use consts::*;
 use generic::{Describe, Scale};
@@ -15,5 +16,5 @@ fn main() -> felt252 {
     let c = containers::sum_squares(array![1, 2, 3, BASE].span());
     let g = 7_u32.scale(3).describe() + 9_u64.scale(2).describe();
     let f = flow::collatz(27) + flow::apply_twice(5, 3);
-    h + c.into() + g + f.into()
+    h + c.into() + g + f.into() + band::caller_3(2) + band::caller_6(3)
 }
